@@ -642,7 +642,7 @@ impl Ref {
                 Ref::Split(parts) => match parts.iter().find(|(g, _)| g.iter().all(|r| r.holds(x))) {
                     Some((g, sub)) => {
                         rows.extend(g.iter().map(|r| Row::le(r.a.clone(), r.b.clone())));
-                        if !lp::has_ball(&rows, n, delta) {
+                        if !lp::has_ball_boxed(&rows, n, delta) {
                             return true;
                         }
                         cur = sub;
